@@ -36,6 +36,7 @@ def run(ctx):
         if sp.kind in ("all_optional", "random_subset", "deep_groups") and (not q or rng.random() < 0.6):
             extra.append(cc.reorder(rng, sp, rng.choice(["reverse", "shuffle", "schema"])))
     specs += extra
+    specs += cc.length_sweep_specs(rng, q)
     cc.run_and_judge(ctx, specs, "C02", "bulk")
     if not q or __import__("os").environ.get("VERIF_SELFTEST"):
         cc.selftest(ctx, "C02", specs)
